@@ -185,6 +185,80 @@ theorem mergeat_null_rhs (cfg : Config) (l r : Node) (plan : Plan) (hr : isNull 
     mergeAt cfg l plan r = .ok l := by
   unfold mergeAt; simp [hr]
 
+/-- SPINE.  Every position that lies under no target keeps its shape: the containers above a
+target keep their kind, anchor and key list (order included) / length — a merge aimed below them
+adds, removes and reorders nothing at their level. -/
+theorem mergeat_spine_kept (cfg : Config) (l r d' : Node) (targets : List Addr)
+    (h : mergeAt cfg l (.existing targets) r = .ok d') :
+    ∀ p, (∀ t ∈ targets, ¬ t <+: p) → (d'.get? p).map shape = (l.get? p).map shape := by
+  intro p hp
+  unfold mergeAt at h
+  cases hr : isNull r with
+  | true => simp only [hr, if_true] at h; cases h; rfl
+  | false =>
+    simp only [hr, Bool.false_eq_true, if_false] at h
+    cases hl : isNull l with
+    | true => simp [hl] at h
+    | false =>
+      simp only [hl, Bool.false_eq_true, if_false] at h
+      cases he : targets.isEmpty with
+      | true => simp [he] at h
+      | false =>
+        simp only [he, Bool.false_eq_true, if_false] at h
+        exact mergeTargets_shape _ r targets l d' h p hp
+
+/-- MISSING PATH CREATED, Scalar right-hand document: the node at the relayed address is the
+Scalar as `set_value` stores it (`newScalar … DEFAULT`: the finding class `scalar-rhs-retyped`
+re-types text here too), every pre-existing node apart from that address is unchanged. -/
+theorem mergeat_missing_created_scalar (cfg : Config) (l d' : Node) (ra : Option Str) (v : Scalar)
+    (segs : List PSeg) (leaf : Node) (c : CreatedN)
+    (hl : isNull l = false) (hr : isNull (.scalar ra v) = false)
+    (hw : wrapLeaf (.scalar ra v) = .ok leaf) (hc : createPathN leaf l segs = .ok c)
+    (hf : c.fresh = true)
+    (h : mergeAt cfg l (.create segs) (.scalar ra v) = .ok d') :
+    ∃ la s, newScalar la.isSome v .default = .ok s ∧ d'.get? c.addr = some (.scalar la s) := by
+  unfold mergeAt at h
+  simp only [hr, hl, Bool.false_eq_true, if_false] at h
+  unfold mergeCreate at h
+  simp only [hw, hc, hf, Node.isScalar, Bool.not_true, Bool.and_false, Bool.false_eq_true, if_false] at h
+  obtain ⟨hm, old, m, hold, hmt, hd'⟩ := mergeOne_ok h
+  have hleaf := createPathN_fresh_holds leaf segs l c hc hf
+  rw [hleaf] at hold
+  cases hold
+  have hne := createPathN_fresh_addr_ne_nil leaf segs l c hc hf
+  have hemp : c.addr.isEmpty = false := by
+    cases hca : c.addr with
+    | nil => exact absurd hca hne
+    | cons x y => rfl
+  have hleafs : ∃ la lv, leaf = Node.scalar la lv := by
+    simp only [wrapLeaf] at hw
+    cases hwt : wrapType v with
+    | error e => simp [hwt, Except.map] at hw
+    | ok v' => simp only [hwt, Except.map] at hw; cases hw; exact ⟨ra, v', rfl⟩
+  obtain ⟨la, lv, hleq⟩ := hleafs
+  subst hleq
+  simp only [mergeTarget, hemp, Bool.false_eq_true, if_false, setScalar] at hmt
+  cases hns : newScalar la.isSome v .default with
+  | error e => simp [hns] at hmt
+  | ok s =>
+    simp only [hns] at hmt
+    cases hmt
+    exact ⟨la, s, hns, by rw [hd']; exact get?_setAt_self _ c.addr c.doc _ hm hleaf⟩
+
+/-- REUSE OF THE C09 CREATION MODEL.  On a Scalar leaf the path creation used here is
+`Node.createPath` of `Model/Edit.lean` — the function the C09 theorems (`create_exact_partial_seq`,
+`create_exact_partial_map`, `fill_resolves`, `create_nothing_when_present`) are about. -/
+theorem mergeat_creation_is_c09 (s : Scalar) (segs : List PSeg) (n : Node) :
+    (createPathN (.scalar none s) n segs).map CreatedN.toCreated = n.createPath s segs :=
+  createPathN_scalar s segs n
+
+/-- RULES RE-BASED.  A `[rules]` / `[keys]` path written against the merged document below the
+merge path (`mergePath ++ p`, plain key names) addresses the node `p` of the right-hand document. -/
+theorem mergeat_rules_rebased {α : Type} (m p : List Str) (x : α) (hm : m ≠ [])
+    (hp : ∀ k ∈ p, k ≠ [] ∧ '/' ∉ k) :
+    rebaseRules m [(m ++ p, x)] = [(keysToAddr p, x)] := by
+  simp [rebaseRules, stripPrefix_append m p hm hp]
+
 /-! ## Witnesses -/
 
 private def i (n : Int) : Node := .scalar none (.int n)
@@ -223,6 +297,11 @@ example : mergeAt {} (.map none [(.str "a".toList, i 1)]) (.create [.key "a".toL
     .ok (.map none [(.str "a".toList, i 5)]) := by decide +kernel
 example : c05 {} (i 1) (.scalar none (.str "5".toList)) = .ok (.scalar none (.str "5".toList)) := by decide +kernel
 example : Retyped false (i 1) (.scalar none (.str "5".toList)) = true := by decide +kernel
+
+/-- `strip_path_prefix` compares texts: a rule for `/a/bc/x` is (wrongly) re-based on the merge path
+`/a/b` to `c/x` (mirrored; observation in `notes/C11.md`). -/
+example : stripPrefix ["a".toList, "bc".toList, "x".toList] ["a".toList, "b".toList] = ["c".toList, "x".toList] := by
+  decide +kernel
 
 /-- The hypotheses of `mergeat_meets_spec_partial` are met by a non-trivial case. -/
 example : Retyped false (.seq none [i 1]) (.seq none [i 3]) = false := by decide +kernel
